@@ -1195,6 +1195,13 @@ func main() {
 	r.Set("rule", "product of scripted consensus states x hostile messages (single-field boundary deviations x signature modes, wrong channels, raw byte truncations/substitutions; pairs in the thorough tier); non-trivial = the reactor queued the message for the state machine")
 	r.Set("consensus_states", len(sts))
 	r.Set("typed_messages", len(typed))
+	nf := 0
+	for _, h := range typed {
+		if h.flood > 0 {
+			nf++
+		}
+	}
+	r.Set("flood_messages_with_growth_oracle", nf)
 	r.Set("raw_byte_strings", len(raw))
 	r.Set("single_message_cases", single)
 	r.Set("cases_followed_by_honest_round_completion", honest)
